@@ -33,11 +33,11 @@ def run(ctx):
     repo = ctx.repo
     T, cg, E = engines(repo)
     ctx.extra["call_graph"] = cg.stats()
-    r08a(ctx, repo)
-    r08b(ctx, repo, cg, E)
-    r08c(ctx, repo, cg)
-    r08d(ctx, repo, cg)
-    r08e(ctx, repo)
+    ctx.each(r08a, ctx, repo)
+    ctx.each(r08b, ctx, repo, cg, E)
+    ctx.each(r08c, ctx, repo, cg)
+    ctx.each(r08d, ctx, repo, cg)
+    ctx.each(r08e, ctx, repo)
 
 
 COPY_CALLS = {"sc.dcp", "copy.deepcopy", "dcp", "deepcopy"}
